@@ -18,6 +18,8 @@ CONSTANTS
   TsTypes = {}
   JsonAttr = FALSE
   Emit = FALSE
+  OptIsDynamic = FALSE
+  OptSkipDynamic = FALSE
   Edits = FALSE
   KindS = "all"
   EmitSched = FALSE
